@@ -3,7 +3,8 @@
 cd "$(dirname "$0")/.."
 for seed in ${SEEDS:-2 3 7 12345}; do
   for p in $(python3 -c "import json;print(' '.join(c['property_id'] for c in json.load(open('MANIFEST.json'))['checks']))"); do
-    out=$(VERIF_SEED=$seed VERIF_EVIDENCE=/tmp/vsound-ev VERIF_REPLAYS=/tmp/vsound-rp ./check $p --tier quick 2>&1 | grep -v '^WARNING'); rc=$?
+    VERIF_SEED=$seed VERIF_EVIDENCE=/tmp/vsound-ev VERIF_REPLAYS=/tmp/vsound-rp ./check $p --tier quick > /tmp/vsound.out 2>&1; rc=$?
+    out=$(grep -v '^WARNING' /tmp/vsound.out)
     echo "$out" | grep -E "^(C[0-9]+ )" | cut -c1-120
     echo "$out" | grep -E "^(VIOLATION|KNOWN|BUILD|note)" | cut -c1-300
     [ $rc -ne 0 ] && echo "   !! $p seed=$seed exit=$rc"
